@@ -9,7 +9,10 @@ Stress (NOT proof: schedules are not controlled): real Threading/Forking servers
    liveness and reaping afterwards.
 Failing clients (failing_clients_job): clients whose TLS negotiation / connection fails, next to good clients;
    deterministic preemption of the failing client's worker at every event of its error path while a good client is
-   accepted (threading server), plus uncontrolled rounds on both servers."""
+   accepted (threading server), plus uncontrolled rounds on both servers.
+Code-loading objects (codeload_job): .pyg modules, .html.tal templates, scripts (handlers outside the shipped list):
+   request A stopped at sampled lines of the loading handler / the module body / the template library while request B
+   for a different object is served; both compared with their answers alone."""
 import json
 
 from common import Check, coq_eval, impl_run_parallel, impl_run
@@ -205,6 +208,141 @@ def failing_clients_job(rng, tier):
     return {"op": "c14_failing_clients", "tree": tree, "requests": reqs, "servertypes": ["ThreadingTCPServer", "ForkingTCPServer"],
             "preempt": preempt, "max_points": 24, "rounds": rounds, "switch_interval": 1e-5, "client_timeout": 5,
             "probe": [plain[0], secure[0], plain[-1]]}
+
+
+PYG_TEXT = '''from pygopherd.handlers.pyg import PYGBase
+from pygopherd.gopherentry import GopherEntry
+import dataclasses
+
+WORDS = []
+for _w in %(words)r:
+    WORDS.append(_w.upper())
+TITLE = "Document %(tag)s " + "-".join(WORDS)
+
+
+@dataclasses.dataclass
+class Line:
+    text: str
+    n: int = 0
+
+
+LINES = [Line("%(tag)s line %%d" %% _i, _i) for _i in range(3)]
+
+
+class PYGMain(PYGBase):
+    def canhandlerequest(self):
+        return True
+
+    def isdir(self):
+        return False
+
+    def getentry(self):
+        entry = GopherEntry(self.selector, self.config)
+        entry.type = "0"
+        entry.mimetype = "text/plain"
+        entry.name = TITLE
+        return entry
+
+    def write(self, wfile):
+        wfile.write((TITLE + "\\n").encode())
+        for ln in LINES:
+            wfile.write(("%%s #%%d\\n" %% (ln.text, ln.n)).encode())
+'''
+
+PYG_MENU = '''from pygopherd.handlers.pyg import PYGBase
+from pygopherd.gopherentry import GopherEntry
+
+ITEMS = []
+for _i in range(%(n)d):
+    ITEMS.append("%(tag)s item %%d" %% _i)
+
+
+class PYGMain(PYGBase):
+    def canhandlerequest(self):
+        return True
+
+    def isdir(self):
+        return True
+
+    def prepare(self):
+        return False
+
+    def getentry(self):
+        entry = GopherEntry(self.selector, self.config)
+        entry.type = "1"
+        entry.mimetype = "application/gopher-menu"
+        entry.name = "Menu %(tag)s"
+        return entry
+
+    def getdirlist(self):
+        out = []
+        for i, name in enumerate(ITEMS):
+            e = GopherEntry("%%s|%%d" %% (self.selector, i), self.config)
+            e.type = "0"
+            e.mimetype = "text/plain"
+            e.name = name
+            out.append(e)
+        return out
+'''
+
+TAL_PAGE = '''<html>
+<head><title>%(tag)s page</title></head>
+<body>
+Selector: <b tal:content="selector">selector</b><br>
+Type: <b tal:content="entry/gettype">X</b> MIME <b tal:content="entry/mimetype">foo/bar</b><br>
+<ul><li tal:repeat="w python:%(words)r"><span tal:replace="w">w</span> of %(tag)s</li></ul>
+Sum: <b tal:content="python:%(a)d + %(b)d">0</b>
+</body>
+</html>
+'''
+
+
+def codeload_job(rng, tier):
+    """Objects whose answer is made by code loaded for the request: .pyg modules, .html.tal templates, executable
+    scripts (handlers that are not in the shipped list), and listings of the directory that holds them."""
+    import c11
+    tree = [{"path": "apps", "kind": "dir"}, {"path": "apps/plain.txt", "data": "plain\n", "mtime": c10.T0}]
+    tags = ["ONE", "TWO", "THREE", "FOUR"]
+    pygs = []
+    for i, tag in enumerate(tags):
+        words = [rng.choice(["alpha", "beta", "gamma", "delta", "eps"]) + str(i) for _ in range(rng.randrange(2, 5))]
+        body = (PYG_MENU % {"tag": tag, "n": rng.randrange(2, 5)}) if i % 2 else (PYG_TEXT % {"tag": tag, "words": tuple(words)})
+        tree.append({"path": "apps/%s.pyg" % tag.lower(), "data": body, "mode": 0o755, "mtime": c10.T0 + i})
+        pygs.append("/apps/%s.pyg" % tag.lower())
+    tals = []
+    for i, tag in enumerate(["RED", "BLUE"]):
+        tree.append({"path": "apps/%s.html.tal" % tag.lower(), "mtime": c10.T0 + 10 + i, "data": TAL_PAGE % {
+            "tag": tag, "words": [tag.lower() + str(j) for j in range(rng.randrange(2, 4))], "a": rng.randrange(100), "b": i + 1}})
+        tals.append("/apps/%s.html.tal" % tag.lower())
+    scripts = []
+    for i, tag in enumerate(["s1", "s2"]):
+        tree.append({"path": "apps/%s.sh" % tag, "mode": 0o755, "mtime": c10.T0 + 20 + i, "data":
+                     "#!/bin/sh\necho \"script %s SELECTOR=$SELECTOR SEARCHREQUEST=${SEARCHREQUEST-<unset>}\"\n" % tag})
+        scripts.append("/apps/%s.sh" % tag)
+    protos = [(k, p, g) for k, p, g in c10.PROTOKEYS if k in ("gopher", "sgopher", "http", "https", "gemini", "gopherplus$", "wap")]
+    reqs = {}
+
+    def rq(sel, search=None):
+        key, proto, gp = rng.choice(protos)
+        data, tls = gen.request_bytes(proto, sel, gplus=gp, **({"search": search} if search else {}))
+        nm = "%s %s%s" % (key, sel, " ?" + search if search else "")
+        reqs[nm] = {"data": gen.lat(data), "tls": tls}
+        return nm
+
+    a, b = rng.sample(pygs, 2)
+    pairs = [[rq(pygs[0]), rq(pygs[2])], [rq(pygs[1]), rq(pygs[3])], [rq(a), rq(b)], [rq(pygs[1]), rq(pygs[0])],
+             [rq("/apps"), rq(rng.choice(pygs))], [rq(rng.choice(pygs)), rq("/apps")],
+             [rq(tals[0]), rq(tals[1])], [rq(tals[1]), rq(rng.choice(pygs))], [rq(rng.choice(pygs)), rq(tals[0])],
+             [rq(scripts[0], "q-one"), rq(scripts[1])], [rq(scripts[1]), rq(rng.choice(pygs))]]
+    if tier == "thorough":
+        objs = pygs + tals + scripts + ["/apps"]
+        for _ in range(12):
+            x, y = rng.sample(objs, 2)
+            pairs.append([rq(x), rq(y)])
+    return {"op": "c14_codeload", "tree": tree, "requests": reqs, "pairs": pairs,
+            "config": {"handlers.HandlerMultiplexer": {"handlers": c11.FULL_HANDLERS}},
+            "trace_files": ["pygopherd/handlers/pyg.py", "pygopherd/handlers/tal.py", "pygopherd/handlers/scriptexec.py"],
+            "trace_dirs": ["/simpletal/"], "points_per_pair": 60 if tier == "thorough" else 24}
 
 
 def lazy_job(rng):
@@ -524,6 +662,41 @@ def run(tier):
         "their requests.  (2) threading (switch interval 10 us) and forking server: rounds of 1-3 failing and 1-2 good "
         "clients within a few ms, some good clients slow, few descriptors open at a time.  Oracle: every good client gets "
         "its sequential answer; server alive and reaped afterwards")
+    # ---------------- objects answered by code / templates / scripts loaded for the request ----------------
+    cj = codeload_job(rng, tier)
+    cr = impl_run([cj])[0]
+    if not cr["ok"]:
+        raise RuntimeError(cr["err"] + "\n" + cr.get("tb", ""))
+    cd = cr["res"]
+    chk.count(("codeload", cd["trials"]), nontrivial=True, n=cd["trials"])
+    cov["code_loading_objects"] = {
+        "trials": cd["trials"], "wrong_answers": cd["nbad"], "line_events_by_pair": cd["points"], "stopped_in": cd.get("stopped_in"),
+        "note": "full-featured handler list; four .pyg modules (two documents, two menus; module bodies with loops and a "
+                "dataclass), two .html.tal templates, two executable scripts and the directory holding them.  Request A runs in "
+                "a traced thread and is stopped before a line of handlers/pyg.py, tal.py, scriptexec.py, of any file below the "
+                "served root (module body and methods of the .pyg file) or of the template library -- the points are counted "
+                "by a run of A alone and sampled evenly; request B, for a different object, then runs to completion; A is "
+                "released; both answers are compared with the answers the requests get alone.  Deterministic, in-process, "
+                "no directory cache."}
+    seen_kinds = set()
+    for b in cd["bad"]:
+        found = True
+        if "sequential_unstable" in b:
+            report({"what": "code-loading objects: %s asked twice in a row gives two different answers (or none)"
+                            % b["sequential_unstable"], "detail": b, "job": cj}, "codeload-sequential-unstable")
+            continue
+        sel = b["stopped_request"].split(" ")[1]
+        kind = "pyg" if sel.endswith(".pyg") else ("tal" if sel.endswith(".tal") else ("script" if sel.endswith(".sh") else "listing"))
+        if "still running" in str(b["exception"]):
+            kind += "-hang"
+        if kind in seen_kinds:
+            continue
+        seen_kinds.add(kind)
+        report({"what": "%s is stopped before line %d of %s (%s); %s is then served completely; the first request is released: "
+                        "%s (%s) gets a response different from the one it gets alone"
+                        % (b["stopped_request"], b["before_line"], b["stopped_in_file"], b["function"], b["other_request"],
+                           b["which"], b["wrong_answer_of"]),
+                "detail": b, "all": cd["bad"][:6], "job": cj}, "codeload-preempt:" + kind)
     cov["stress"] = stress
     cov["violations_by_tag"] = reported
     cov["stress"]["note"] = ("stress, not proof: real ThreadingTCPServer and ForkingTCPServer (TLS enabled, testdata/demo.crt, "
@@ -588,6 +761,13 @@ def replay(path):
         bad = [o for o in d["obs"] if o != want]
         print("REPRODUCED" if bad else "not reproduced")
         return 1 if bad else 0
+    if job["op"] == "c14_codeload":
+        print({k: v for k, v in d.items() if k not in ("bad", "points")})
+        for b in d["bad"][:3]:
+            print("  ", {x: b.get(x) for x in ("stopped_request", "other_request", "stopped_in_file", "function", "before_line",
+                                               "wrong_answer_of", "exception")})
+        print("REPRODUCED" if d["nbad"] else "not reproduced")
+        return 1 if d["nbad"] else 0
     n = sum(len(v["mismatches"]) for v in d.values())
     if job["op"] == "c14_failing_clients":
         for k, v in d.items():
